@@ -14,12 +14,12 @@ IRRELEVANT_PREFIXES = ["mtm_", "utm_", "at_"]
 AMP_KEYS = ["amp"]
 AMP_PREFIXES = ["amp_"]
 IRRELEVANT_COMBOS = {
-    "marfeeltn": {"amp"}, "mode": {"amp"}, "output": {"amp"}, "platform": {"hootsuite"}, "fromref": {"twitter"}, "m": {"0", "1"},
+    "platform": {"hootsuite"}, "fromref": {"twitter"}, "m": {"0", "1"},
     "ref": {"bookmark", "bookmarks", "distributor_share", "fb", "fb_i", "m_notif", "nf", "notif", "shortener", "ts", "tw", "tw_i", "twhr",
             "twhs", "twitter", "viral", "feed", "twtrec"},
     "source": {"twitter"}, "sns": {"tw"}, "spref": {"fb", "ts", "tw", "tw_i", "twitter"}, "_ss": {"r"},
 }
-AMP_COMBOS = {"outputtype": {"amp"}}
+AMP_COMBOS = {"outputtype": {"amp"}, "marfeeltn": {"amp"}, "mode": {"amp"}, "output": {"amp"}}   # AMP markers: kept when normalize_amp is off
 PER_DOMAIN = {"facebook.com": {"_rdc", "_rdr"}, "youtube.com": {"t", "si", "cbrd", "ucbcb", "ab_channel"}}
 LANG_KEYS = ["gl", "hl"]
 
@@ -51,7 +51,7 @@ def _s(b):
 
 def is_irrelevant_item(key, value, normalize_amp=True, host=None, lang=False):
     """frozen reading of the documentation: may this (decoded) query item be dropped?"""
-    k = (_s(key) or "").lower()
+    k = "".join(c.lower() if c < "\x80" else c for c in (_s(key) or ""))   # ASCII case only: 'mkt_to\u212a' (KELVIN SIGN) is not 'mkt_tok'
     v = _s(value)
     if k in IRRELEVANT_KEYS:
         return True
